@@ -6,6 +6,8 @@
               wrapping_* / checked_*.
   OP-TABLE    (syntax) each arm of eval_int_binop / eval_float_binop uses the documented operation on (lhs, rhs) in that order.
   ZERO-GUARD  Divide, Modulo and DivideFloat are preceded by `rhs == 0 => Err(Exception)`; Exponent by `rhs < 0 => Err`.
+  ERROR-RESTORE every error exit of the arithmetic helpers hands back exactly the operands it popped, in push order (C07's
+              RESTORE-SEQ restricted to eval_int_binop / eval_float_binop / eval_assign_update).
   SIBLING     x += e / x -= e use the same operation as + / -.
   OPERAND-ORDER the second value popped is the left operand; eval_expr schedules rhs before lhs (LIFO) so lhs is evaluated first.
 """
@@ -241,6 +243,23 @@ def run(ctx, res):
             break
     res.floor("OPERAND-ORDER", "binary-operator arms scheduling rhs then lhs", n_ok, 5)
     res.ok("OPERAND-ORDER", "eval_int_binop: first pop is `%s` (right operand), second pop is `%s` (left operand)" % (pops[0], pops[1]))
+    # ---- ERROR-RESTORE (shared with C07's RESTORE-SEQ): an arithmetic error hands back the operands it popped in order,
+    # so re-running the step raises the same exception instead of evaluating `0 / a`
+    from . import c07
+    sites, _inh, _hlp, _sh = c07.restore_sites(ctx)
+    ar = [x for x in sites if x["fn"] in ("eval_int_binop", "eval_float_binop", "eval_assign_update")]
+    cnt = {}
+    for x in ar:
+        k0 = (x["fn"], x["arm"])
+        cnt[k0] = cnt.get(k0, 0) + 1
+        key = "eval::%s # %s # %d # %s" % (x["fn"], x["arm"], cnt[k0], c07.show(x["restored"]))
+        if x["ok"]:
+            res.ok("ERROR-RESTORE", key)
+        else:
+            res.bad("ERROR-RESTORE", key, "%s [%s] hands back %s after popping %s: when the step is re-run the operands are swapped or lost, so the "
+                    "documented exception is not raised again (expected %s)" % (x["fn"], x["arm"], c07.show(x["restored"]), c07.show(x["popped"]), c07.show(x["expected"])),
+                    "%s:%d" % (EVAL, x["line"]))
+    res.floor("ERROR-RESTORE", "error exits of the arithmetic helpers", len(ar), 8)
     # ---- SIBLING
     au = S.find_fn(sh, EVAL, "eval_assign_update")
     sib = {"Add": INT_OPS["Add"][1], "Subtract": INT_OPS["Subtract"][1]}
